@@ -22,6 +22,11 @@ pub(super) fn sym_lr() -> Float {
 
 /// C13: update on up to three parameters with the given shapes; the subset holding a gradient is symbolic
 pub(super) fn update_check(d0: &[usize], d1: &[usize], d2: &[usize], rounds: usize, mask: usize, lr: Float) {
+    update_check_z(d0, d1, d2, rounds, mask, lr, 0, false);
+}
+/// `gconc`: gradients are CONCRETE (all zeros for the parameters in `zmask`, 1, 2, 3, ... otherwise), so that the step stays
+/// decidable if a change makes its control flow depend on gradient values
+pub(super) fn update_check_z(d0: &[usize], d1: &[usize], d2: &[usize], rounds: usize, mask: usize, lr: Float, zmask: usize, gconc: bool) {
     let shapes: [&[usize]; 3] = [d0, d1, d2];
     let count = if d2.is_empty() { if d1.is_empty() { 1 } else { 2 } } else { 3 };
     let gd = GradientDescent::new(lr);
@@ -44,7 +49,12 @@ pub(super) fn update_check(d0: &[usize], d1: &[usize], d2: &[usize], rounds: usi
         while k < count {
             // which parameters hold a gradient: bit k of `mask` in round 0, the complement afterwards
             let h = if round == 0 { (mask >> k) & 1 == 1 } else { (mask >> k) & 1 == 0 };
-            let gv = sym_vec(numel(shapes[k]), sym_val);
+            let gv = if gconc {
+                let mut v = Vec::with_capacity(numel(shapes[k]));
+                let mut e = 0;
+                while e < numel(shapes[k]) { v.push(if (zmask >> k) & 1 == 1 { 0.0 } else { (e + 1) as Float }); e += 1; }
+                v
+            } else { sym_vec(numel(shapes[k]), sym_val) };
             if h {
                 *params[k].gradient_mut() = Some(mk(shapes[k], gv.clone()));
             }
@@ -327,6 +337,11 @@ pub(super) fn train_check(batch: usize, n_in: usize, n_out: usize, iters: usize,
             && ps[0].children.is_empty() && ps[0].is_tracked.get(), "C14 no gradient, graph or count leaks into the next iteration");
 }
 
+macro_rules! update_z_instance {
+    ($name:ident, $unwind:expr, [$($a:expr),*], [$($b:expr),*], [$($c:expr),*], $rounds:expr, $mask:expr, $lr:expr, $zmask:expr) => {
+        vk_harness!($name, $unwind, { update_check_z(&[$($a),*], &[$($b),*], &[$($c),*], $rounds, $mask, $lr, $zmask, true); });
+    };
+}
 macro_rules! update_instance {
     ($name:ident, $unwind:expr, [$($a:expr),*], [$($b:expr),*], [$($c:expr),*], $rounds:expr, $mask:expr, $lr:expr) => {
         vk_harness!($name, $unwind, { update_check(&[$($a),*], &[$($b),*], &[$($c),*], $rounds, $mask, $lr); });
